@@ -21,14 +21,19 @@ def _get(e, k):
         raise RefPatchError("diff entry %r lacks %r" % (dict(e), k))
 
 
-def refpatch(obj, diff):
+def refpatch(obj, diff, combine=False):
+    """combine=False: a single diff, strict.  combine=True: the concatenation
+    of several diffs that address the same original (merge decisions of one
+    path group): several addrange entries at one key insert in the order
+    given, several patch entries of one item are concatenated recursively;
+    anything else that targets an item twice is still an error."""
     if isinstance(obj, dict):
-        return _patch_dict(obj, diff)
+        return _patch_dict(obj, diff, combine)
     if isinstance(obj, list):
-        return _patch_seq(obj, diff, lambda item, d: refpatch(item, d))
+        return _patch_seq(obj, diff, lambda item, d: refpatch(item, d, combine), combine)
     if isinstance(obj, str):
         lines = obj.splitlines(True)
-        out = _patch_seq(lines, diff, _patch_chars)
+        out = _patch_seq(lines, diff, lambda line, d: _patch_chars(line, d, combine), combine)
         for x in out:
             if not isinstance(x, str):
                 raise RefPatchError("non-string line inserted into a string")
@@ -36,23 +41,37 @@ def refpatch(obj, diff):
     raise RefPatchError("cannot patch a %s" % type(obj).__name__)
 
 
-def _patch_chars(line, diff):
-    out = _patch_seq(list(line), diff, None)
+def _patch_chars(line, diff, combine=False):
+    out = _patch_seq(list(line), diff, None, combine)
     return "".join(out)
 
 
-def _patch_dict(obj, diff):
+def _patch_dict(obj, diff, combine=False):
     if not isinstance(diff, list):
         raise RefPatchError("diff must be a list")
-    seen = set()
+    seen = {}
     out = dict(obj)
+    if combine:
+        # merge several patch entries of one key into one
+        merged, order = {}, []
+        for e in diff:
+            op, key = _get(e, "op"), _get(e, "key")
+            if op == "patch" and key in merged and merged[key]["op"] == "patch":
+                merged[key] = dict(op="patch", key=key,
+                                   diff=list(merged[key]["diff"]) + list(_get(e, "diff")))
+            elif key in merged:
+                raise RefPatchError("key %r targeted twice" % key)
+            else:
+                merged[key] = e
+                order.append(key)
+        diff = [merged[k] for k in order]
     for e in diff:
         op, key = _get(e, "op"), _get(e, "key")
         if not isinstance(key, str):
             raise RefPatchError("mapping key must be a string: %r" % (key,))
         if key in seen:
             raise RefPatchError("key %r targeted twice" % key)
-        seen.add(key)
+        seen[key] = 1
         if op == "add":
             if key in obj:
                 raise RefPatchError("add of existing key %r" % key)
@@ -68,13 +87,13 @@ def _patch_dict(obj, diff):
         elif op == "patch":
             if key not in obj:
                 raise RefPatchError("patch of missing key %r" % key)
-            out[key] = refpatch(obj[key], _get(e, "diff"))
+            out[key] = refpatch(obj[key], _get(e, "diff"), combine)
         else:
             raise RefPatchError("op %r is not defined for mappings" % (op,))
     return out
 
 
-def _patch_seq(seq, diff, patch_item):
+def _patch_seq(seq, diff, patch_item, combine=False):
     if not isinstance(diff, list):
         raise RefPatchError("diff must be a list")
     n = len(seq)
@@ -88,12 +107,12 @@ def _patch_seq(seq, diff, patch_item):
         if op == "addrange":
             if not 0 <= key <= n:
                 raise RefPatchError("addrange key %d out of range 0..%d" % (key, n))
-            if key in inserts:
+            if key in inserts and not combine:
                 raise RefPatchError("two addrange entries at key %d" % key)
             vl = _get(e, "valuelist")
             if not isinstance(vl, (list, str)):
                 raise RefPatchError("valuelist must be a sequence")
-            inserts[key] = list(vl)
+            inserts[key] = inserts.get(key, []) + list(vl)
         elif op == "removerange":
             ln = _get(e, "length")
             if isinstance(ln, bool) or not isinstance(ln, int) or ln < 1:
@@ -107,11 +126,11 @@ def _patch_seq(seq, diff, patch_item):
         elif op == "patch":
             if not 0 <= key < n:
                 raise RefPatchError("patch key %d out of range (len %d)" % (key, n))
-            if removed[key] or key in patched:
+            if removed[key] or (key in patched and not combine):
                 raise RefPatchError("item %d targeted twice" % key)
             if patch_item is None:
                 raise RefPatchError("patch below character level")
-            patched[key] = _get(e, "diff")
+            patched[key] = list(patched.get(key, [])) + list(_get(e, "diff"))
         else:
             raise RefPatchError("op %r is not defined for sequences" % (op,))
     out = []
